@@ -26,16 +26,16 @@ type fieldRole struct {
 }
 
 type variant struct {
-	name    string // mvp6-1
-	rel     string // proc/mvp6-1
-	pkg     *packages.Package
-	info    *types.Info
-	cpu     *types.Named
-	cpuSt   *types.Struct
-	run     *ast.FuncDecl
-	fields  []*fieldRole
-	flush   *ast.FuncDecl // pipeline flush
-	isEmpty *ast.FuncDecl // completion predicate
+	name     string // mvp6-1
+	rel      string // proc/mvp6-1
+	pkg      *packages.Package
+	info     *types.Info
+	cpu      *types.Named
+	cpuSt    *types.Struct
+	run      *ast.FuncDecl
+	fields   []*fieldRole
+	flush    *ast.FuncDecl // pipeline flush
+	isEmpty  *ast.FuncDecl // completion predicate
 	problems []string
 }
 
